@@ -56,6 +56,7 @@ def op_strategy(depth=2):
         st.tuples(c, c, c).map(lambda t: T("translate", *t)),
         st.tuples(ang, st.sampled_from(["x", "y", "z"])).map(lambda t: T("rotate", *t)),
         st.lists(f, min_size=1, max_size=3).map(lambda l: T("scale", *l)),
+        f.map(lambda x: T("scale", x, x)),
         nv.map(lambda v: T("reflect", v)),
         st.sampled_from(["xy", "yz", "zx"]).map(lambda p: T("mirror", p)),
         st.tuples(c, c, c).map(lambda t: T("set_pivot", list(t))),
@@ -70,9 +71,11 @@ def op_strategy(depth=2):
     inner = op_strategy(depth - 1)
     ctx = st.one_of(
         st.fixed_dictionaries({"op": st.just("ctx"), "kind": st.just("current"),
-                               "body": st.lists(inner, max_size=4), "raise": st.booleans()}),
+                               "body": st.lists(inner, max_size=4),
+                               "raise": st.sampled_from([False, False, True, "base"])}),
         st.fixed_dictionaries({"op": st.just("ctx"), "kind": st.just("named"), "name": nm,
-                               "body": st.lists(inner, max_size=4), "raise": st.booleans()}))
+                               "body": st.lists(inner, max_size=4),
+                               "raise": st.sampled_from([False, False, True, "base"])}))
     return st.one_of(geo, geo, state, state, state, ctx)
 
 
@@ -130,8 +133,10 @@ class Runner:
                     self.run(op["body"])
                     if op["raise"]:
                         self.cl.add("context_body_raises")
-                        raise hist._Boom()
-            except hist._Boom:
+                        if op["raise"] == "base":
+                            self.cl.add("context_body_raises_BaseException")
+                        raise hist.boom(op["raise"])
+            except (hist._Boom, hist._BoomBase):
                 pass
             except KeyError:
                 if expect_enter is None:
